@@ -10,6 +10,7 @@
 #include <malloc.h>
 #include <time.h>
 #include <sched.h>
+#include <sys/stat.h>
 #include "hx.h"
 #include "bidib.h"
 
@@ -247,6 +248,17 @@ NOINST static int exec_main_step(int argc, char **argv, FILE *f) {
 		ev("\"e\":\"ret\",\"f\":\"bidib_send_sys_reset\",\"r\":null");
 		check_balance("bidib_send_sys_reset"); hx_curcall = "-";
 		mon_armed = was;
+		return 0;
+	}
+	if (!strcmp(op, "cfgfile") && argc >= 3) {
+		/* cfgfile <relative path> <hex content>: scenarios carry their configuration files, so a replay is self-contained */
+		char path[512]; snprintf(path, sizeof path, "%s", argv[1]);
+		for (char *c = path + 1; *c; c++) if (*c == '/') { *c = 0; mkdir(path, 0755); *c = '/'; }
+		FILE *cf = fopen(path, "wb");
+		if (!cf) { ev("\"e\":\"harness_error\",\"why\":\"cannot write %s\"", path); return 2; }
+		const char *hx = argv[2]; size_t L = strlen(hx) / 2;
+		if (strcmp(hx, "-")) for (size_t i = 0; i < L; i++) { unsigned v; sscanf(hx + 2 * i, "%2x", &v); fputc((int)v, cf); }
+		fclose(cf);
 		return 0;
 	}
 	if (!strcmp(op, "heap")) { ev("\"e\":\"heap\",\"tag\":\"%s\",\"bytes\":%zu", argc >= 2 ? argv[1] : "", heap_bytes()); return 0; }
